@@ -374,7 +374,8 @@ def scaling_guard(ck, rule):
     prog = ck.prog
     f = A.funnel(prog)
     hits = 0
-    for node in ast.walk(f.node):
+    from ..common import walk_closure
+    for _g, node in walk_closure(prog, f):        # set_val and the stages split off it
         if not isinstance(node, ast.If):
             continue
         sets_obj = any(isinstance(s, ast.Assign) and any(dotted(t) == "val_dtype" for t in s.targets) and dotted(s.value) == "object" for s in node.body)
